@@ -226,6 +226,8 @@ val finditer_sx : nat -> mres list option -> sx
 
 val word_ranges : (n * n) list
 
+val digit_ranges : (n * n) list
+
 val rx_ws_base : rx
 
 val rx_nl_linecol : rx
@@ -287,6 +289,18 @@ val rx_ftl_lead : rx
 val rx_ftl_trail : rx
 
 val parser_regexes : rx list
+
+val rx_printf : rx
+
+val rx_digits_end : rx
+
+val rx_plural_var : rx
+
+val rx_mochibake : rx
+
+val rx_c06_escape : rx
+
+val c06_regexes : rx list
 
 val all_regexes : rx list
 
